@@ -122,4 +122,8 @@ func vStrEq(a, b string) bool { return a == b }
 // vSymbolic reports whether the harness runs under the symbolic engine.
 func vSymbolic() bool { return false }
 
+// vClockAdvance lets time pass: later time.Now() calls return a new, not
+// earlier, instant (native: real time passes anyway).
+func vClockAdvance() {}
+
 func vName(prefix string, i int) string { return prefix + strconv.Itoa(i) }
